@@ -140,7 +140,13 @@ def run_unit(unit, rng, ctx):
         if rng.integers(2):
             _ = traj.displacements
         ctx.count('cases_with_earlier_volume_call')
-    vol = traj.to_volume(resolution=res)
+    if unit['i'] % 2:
+        from gemdat.volume import trajectory_to_volume
+
+        vol = trajectory_to_volume(traj, resolution=res)
+        ctx.count('via_volume.trajectory_to_volume')
+    else:
+        vol = traj.to_volume(resolution=res)
     data = np.asarray(vol.data)
     chg = snap.diff_traj_content(before, snap.traj_content(traj))
     ctx.check(chg is None, f'{what}: to_volume modified the trajectory it was computed from: {chg}', wit)
